@@ -63,10 +63,12 @@ def gen(rng, nthreads=None):
                     acts.append("B"); inside = True
                 elif r < 0.65:
                     acts.append("F%d" % rng.randrange(NF))
-                elif r < 0.85:
+                elif r < 0.8:
                     acts.append("D%d" % rng.randrange(ND))
-                else:
+                elif r < 0.9:
                     acts.append("X%d" % rng.randrange(ND))     # the DAG run through a fresh executor object
+                else:
+                    acts.append("C%d" % rng.randrange(ND))     # the built DAG is reconfigured (its nodes are re-created)
         if inside:
             acts.append("E")
         progs.append(acts)
@@ -216,6 +218,11 @@ def run(sc):
                     if a[0] == "F":
                         v = fns[int(a[1:])](5)
                         res = classify(v) or ("FN%s" % a[1:] if v == ("f%s" % a[1:], 5) else "BAD:%r" % (v,))
+                    elif a[0] == "C":
+                        # reconfiguration re-creates the node OUTSIDE any description of this thread; the DAG must work after it
+                        dags[int(a[1:])].config_from_dict({"nodes": {"f%s" % a[1:]: {"priority": 1 + tid}}})
+                        v = dags[int(a[1:])](100 + tid)
+                        res = classify(v) or ("DAG%s" % a[1:] if v == (("f%s" % a[1:], 100 + tid), 5) else "BAD:%r" % (v,))
                     else:
                         if a[0] == "D":
                             v = dags[int(a[1:])](100 + tid)
